@@ -516,7 +516,7 @@ theorem C06_gen_facts :
     Pyro.Gen.C06.magicNumber = magicNumber ∧
     Pyro.Gen.C06.flagsCompressed = FLAGS_COMPRESSED ∧
     Pyro.Gen.C06.flagsCorrId = FLAGS_CORR_ID ∧
-    Pyro.Gen.C06.lenComparisons = ["Gt 100", "NotEq 4"] ∧
+    Pyro.Gen.C06.acceptedKeyLengths = [4] ∧
     (packHeader 0 0 0 0 0 0 zeroCorr).length = Pyro.Gen.C06.headerSize := by decide
 
 /-- **C06_gen_conditions.**  The three decisions of the codec — compress or not, sender refuses, receiver
